@@ -66,6 +66,39 @@ impl Guarded {
     }
 }
 
+const MAP_NORESERVE: c_int = 0x4000;
+
+impl Guarded {
+    /// A SPARSE region of `total` bytes (up to several GiB): untouched zero pages, `prefix` copied to its start and
+    /// `suffix` to its end, a PROT_NONE page behind it (end-flush up to 8-byte alignment). `None` when the
+    /// address space cannot be reserved.
+    pub fn sparse(total: usize, prefix: &[u8], suffix: &[u8]) -> Option<Self> {
+        let data_pages = total.checked_add(16)? / PAGE + 1;
+        let map_len = data_pages.checked_add(2)?.checked_mul(PAGE)?;
+        let map = unsafe {
+            mmap(core::ptr::null_mut(), map_len, PROT_RW, MAP_PRIVATE_ANON | MAP_NORESERVE, -1, 0)
+        } as *mut u8;
+        if map.is_null() || map as isize == -1 {
+            return None;
+        }
+        let usable = unsafe { map.add(PAGE) };
+        let usable_len = data_pages * PAGE;
+        unsafe {
+            assert_eq!(mprotect(map as *mut c_void, PAGE, PROT_NONE), 0);
+            assert_eq!(mprotect(usable.add(usable_len) as *mut c_void, PAGE, PROT_NONE), 0);
+        }
+        let end = usable as usize + usable_len;
+        let ptr = ((end - total) & !7usize) as *mut u8;
+        unsafe {
+            core::ptr::copy_nonoverlapping(prefix.as_ptr(), ptr, prefix.len().min(total));
+            if total >= suffix.len() + prefix.len() {
+                core::ptr::copy_nonoverlapping(suffix.as_ptr(), ptr.add(total - suffix.len()), suffix.len());
+            }
+        }
+        Some(Guarded { map, map_len, ptr, len: total })
+    }
+}
+
 const MAP_FIXED_NOREPLACE: c_int = 0x100000;
 
 impl Guarded {
